@@ -33,6 +33,10 @@ def _gen_file(rng, formats, tier, max_frames=None):
     if max_frames:
         n = min(n, max_frames)
     n_atoms = rng.choice(ATOMS)
+    if fmt in ('h5', 'nc', 'dcd', 'xtc', 'trr', 'xyz', 'mdcrd') and rng.chance(0.012):
+        # a long file of a tiny system: thousands of frames, beyond any internal block, cache or index granularity
+        n = rng.randint(4100, 6000)
+        n_atoms = rng.choice([2, 3])
     if fmt in ('pdb', 'gro') and n_atoms < 3:
         n_atoms = 3
     mdcrd_has_box_kw = False
@@ -60,7 +64,7 @@ def _gen_file(rng, formats, tier, max_frames=None):
         knobs['line_order'] = rng.choice(['sorted', 'sorted', 'shuffled'])      # LAMMPS does not sort atom lines by id unless asked
     # dialects of the format that other programs write (simlib/foreign.py rewrites the mdtraj-written file value for value)
     if fmt == 'dcd' and rng.chance(0.45):
-        knobs['dialect'] = rng.choice(['be', 'fixed', 'fixed', 'be_fixed']) if n_atoms >= 2 else 'be'
+        knobs['dialect'] = rng.choice(['be', 'fixed', 'fixed', 'be_fixed', 'count0', 'count_stale', 'fixed_count0', 'be_count0']) if n_atoms >= 2 else rng.choice(['be', 'count0'])
         knobs['fixed_bits'] = rng.below(1 << 16)
     if fmt == 'trr' and rng.chance(0.45):
         knobs['dialect'] = rng.choice(['double', 'double_v', 'double_f', 'double_vf', 'single_vf', 'single_v'])
@@ -70,7 +74,12 @@ def _gen_file(rng, formats, tier, max_frames=None):
         knobs['dialect'] = 'velocities'
     if fmt == 'nc' and rng.chance(0.35):
         # laid out as AMBER's own programs do; the HDF5-based container only where the netCDF4 library reads the file
-        knobs['dialect'] = rng.choice(['amber_64bit', 'amber_classic', 'amber_vel', 'amber_remd'] + ([] if knobs.get('backend') == 'scipy' else ['amber_nc4', 'amber_nc4']))
+        knobs['dialect'] = rng.choice(['amber_64bit', 'amber_classic', 'amber_vel', 'amber_remd'] + ([] if knobs.get('backend') == 'scipy' else ['amber_nc4', 'amber_nc4', 'packed', 'packed']))
+    if fmt == 'dtr' and n >= 2 and rng.chance(0.4):
+        # a .stk file listing two frame sets of a restarted run; the second starts `overlap` frames before the first one ends
+        # (restart from a saved frame): the reader documents that the earlier set's overlapping frames are dropped
+        cut = rng.randint(1, n - 1)
+        knobs['stk'] = {'cut': cut, 'overlap': rng.randint(0, min(3, n - cut))}
     # extension aliases registered for the same reader, gz variants, and where the molecule sits (negative and large coordinates)
     alias = {'nc': ['.nc', '.nc', '.netcdf', '.ncdf'], 'mdcrd': ['.mdcrd', '.crd'], 'h5': ['.h5', '.h5', '.hdf5'],
              'xyz': ['.xyz', '.xyz', '.xyz.gz'], 'pdb': ['.pdb', '.pdb.gz']}
@@ -151,6 +160,7 @@ def generate(check, rng, tier, run_index):
     nfiles = rng.weighted([(1, 5), (2, 3), (3, 2)])
     files = [_gen_file(rng, C02_FORMATS, tier, max_frames=30) for _ in range(nfiles)]
     for f in files:
+        f['knobs'].pop('stk', None)                     # md.open / md.iterload do not register .stk (only md.load does): raw handles only
         if f['fmt'] == 'mdcrd':
             f['knobs'].pop('has_box_kw', None)          # md.load / md.iterload have no has_box argument
             f['n_atoms'] = max(2, f['n_atoms'])
@@ -180,6 +190,8 @@ def generate(check, rng, tier, run_index):
             stride = rng.weighted([(1, 4), (2, 4), (3, 3), (4, 1), (5, 1), (7, 1)])
             chunk = rng.weighted([(0, 1), (1, 2), (max(1, stride - 1), 2), (stride, 2), (stride + 1, 3),
                                   (rng.randint(2, 9), 4), (N + 3, 1), (100, 1)])
+            if N > 1000:
+                chunk = rng.choice([0, 7, 100, 512, 1000, 2048, N + 3])      # a long file: no thousands of one-frame chunks
             skip = rng.weighted([(0, 5), (1, 2), (rng.randint(0, N), 3), (max(0, N - 1), 1), (N, 1)])
             o = {'op': 'iter_new', 'g': ngen, 'f': f, 'chunk': chunk, 'stride': stride, 'skip': skip,
                  'top': rng.choice(['obj', 'path', 'shared'])}
@@ -258,6 +270,16 @@ class World(object):
                 with md.formats.HDF5TrajectoryFile(path, 'w', compression=fs['knobs'].get('compression', 'zlib')) as f:
                     f.write(t.xyz, time=t.time, cell_lengths=t.unitcell_lengths, cell_angles=t.unitcell_angles)
                     f.topology = t.topology
+            elif fs['fmt'] == 'dtr' and fs['knobs'].get('stk') and fs['n_frames'] >= 2:
+                sk = fs['knobs']['stk']
+                cut = min(sk['cut'], fs['n_frames'] - 1)
+                ov = min(sk['overlap'], fs['n_frames'] - cut)
+                pa, pb = os.path.join(workdir, 'f%d_a.dtr' % k), os.path.join(workdir, 'f%d_b.dtr' % k)
+                t[:cut + ov].save(pa)
+                t[cut:].save(pb)
+                path = os.path.join(workdir, 'f%d.stk' % k)
+                with open(path, 'w') as fh:
+                    fh.write(pa + '\n' + pb + '\n')
             else:
                 t.save(path, **kw)
             if fs['fmt'] == 'lammpstrj' and (fs['knobs'].get('layout', 'std') != 'std' or fs['knobs'].get('line_order') == 'shuffled'):
@@ -278,6 +300,9 @@ class World(object):
                         # what such a file means: the fixed atoms stay where the first frame has them
                         x[1:, fixed] = x[0, fixed]
                         t.xyz[1:, fixed] = t.xyz[0, fixed]
+                    if 'count' in dia:
+                        # header frame counter that disagrees with the content (0: writer killed before closing; stale: updated late)
+                        foreign.dcd_set_header_count(path, 0 if 'count0' in dia else max(0, fs['n_frames'] - 1 - fs['seed'] % 3))
                     if 'be' in dia:
                         foreign.dcd_swap_endianness(path)
                 elif fs['fmt'] == 'trr':
@@ -291,6 +316,9 @@ class World(object):
                     if any(g['fmt'] == 'nc' and g.get('knobs', {}).get('backend') == 'scipy' for g in case['files']):
                         dm = dm.replace('NETCDF4', 'NETCDF3_64BIT_OFFSET')      # scipy's reader (selected for this run) knows NetCDF 3 only
                     foreign.nc_as_amber_writes(path, dm, dia != 'amber_64bit', dia == 'amber_remd', fs['seed'])
+                elif fs['fmt'] == 'nc' and dia == 'packed':
+                    if not any(g['fmt'] == 'nc' and g.get('knobs', {}).get('backend') == 'scipy' for g in case['files']):
+                        foreign.nc_pack_variables(path, [10.0, 8.0, 0.5][fs['seed'] % 3])      # unpacking is the netCDF4 library's job
             top_path = os.path.join(workdir, 'top%d.pdb' % k)
             self.files.append({'spec': fs, 'path': path, 'traj': t, 'xyz': x, 'time': tm, 'L': L, 'A': A, 'ox': origin[0],
                                'top_path': top_path, 'top_saved': False, 'F': None, 'shared_top': t.topology.copy()})
@@ -361,6 +389,8 @@ def _open(world, k):
         for kk in ('min_chunk_size', 'chunk_size_multiplier'):
             if kk in fs['knobs']:
                 kw[kk] = fs['knobs'][kk]
+    if f['path'].endswith('.stk'):
+        return world.md.formats.DTRTrajectoryFile(f['path'])      # the documented way to open a stack of frame sets
     return world.md.open(f['path'], **kw)
 
 
